@@ -76,8 +76,9 @@ def run_impl(case):
 
 
 def spec(case, mos, io):
-    fails = exprprop.check_values(case, io)
-    if mos and not (mos[0].get("wf") and mos[0].get("idsNodup")):
+    fails = exprprop.check_values(case, io, mos)
+    _e = exprprop.split_mos(mos)[0]
+    if _e is not None and not (_e.get("wf") and _e.get("idsNodup")):
         fails.append("harness: translated expression violates the theorem's hypotheses (wf / distinct ids)")
     return fails
 
